@@ -22,7 +22,7 @@ KINDS = ["next_corner", "previous_corner", "opposite_corner", "corner_to_half_ed
          "vertex_to_vertices", "vertex_to_faces", "vertex_to_corners", "vertex_to_edges", "vertex_to_corner_in_face",
          "face_to_vertices", "face_to_edges", "face_to_corners", "face_to_first_corner", "face_to_faces", "in_face_index",
          "face_id", "edge_id", "other_edge_end", "edge_to_vertices", "is_edge_on_border", "is_vertex_on_border",
-         "boundary_edges", "boundary_vertices", "is_triangular", "clear_caches", "ith_vertex_of_face"]
+         "boundary_edges", "boundary_vertices", "is_triangular", "clear_caches", "ith_vertex_of_face", "poke_invalid"]
 
 
 @st.composite
@@ -272,6 +272,17 @@ def do_query(m, ref, medges, eid, sort_on, q, ctx, where):
             call(C.clear)
         if a % 3 != 1:
             call(m.clear_boundary_data)
+    elif kind == "poke_invalid":
+        # a query about an element that does not exist: whatever it answers or raises, later answers must not change
+        bad = [(C.vertex_to_faces, (nV + 1 + a % 3,)), (C.vertex_to_vertices, (nV + a % 4,)), (C.face_to_vertices, (nF + a % 3,)),
+               (C.next_corner, (nC + 2,)), (C.opposite_corner, (-1 - a % 2,)), (C.face_to_edges, (nF + 1,)), (C.face_to_faces, (nF,)),
+               (C.direct_face, (nV + 1, 0)), (C.edge_id, (nV + 2, nV + 3)), (C.in_face_index, (nF + 1, 0)), (m.is_vertex_on_border, (nV + 5,)),
+               (C.vertex_to_corner_in_face, (nV, nF)), (C.face_id, (nV, nV + 1, nV + 2)), (C.other_edge_end, (len(medges) + 1, 0))]
+        f_, args_ = bad[b % len(bad)]
+        try:
+            f_(*args_)
+        except Exception:
+            pass
     elif kind == "ith_vertex_of_face":
         f = a % nF
         i = b % len(ref.F[f])
@@ -374,6 +385,8 @@ def fn(case, ctx):
             qs = [[kind, f, j, 0] for f in range(nF) for j in range(len(F[f]))]
         elif kind == "clear_caches":
             qs = [[kind, rnd.randrange(6), 0, 0]]
+        elif kind == "poke_invalid":
+            qs = [[kind, rnd.randrange(12), rnd.randrange(40), 0] for _ in range(3)]
         else:
             qs = [[kind, 0, 0, 0]]
         for q in qs:
